@@ -870,3 +870,164 @@ func BadW4negotiated(v any) bool {
 	id, ok := v.(uint8)
 	return ok && v != 0 && id < 15
 }
+
+// ---- X6: a packet is identified by the SSRC and the sequence number of one header -----------------------------------------------
+
+type x6log struct{ seen map[uint64]bool }
+
+func (l *x6log) file(ssrc uint32, seq uint16) { l.seen[uint64(ssrc)<<16|uint64(seq)] = true }
+
+func GoodX6bind(l *x6log, w interceptor.RTPWriter) interceptor.RTPWriter {
+	return interceptor.RTPWriterFunc(func(h *rtp.Header, b []byte, a interceptor.Attributes) (int, error) {
+		l.file(h.SSRC, h.SequenceNumber)
+		return w.Write(h, b, a)
+	})
+}
+
+func BadX6bind(l *x6log, ssrc uint32, w interceptor.RTPWriter) interceptor.RTPWriter {
+	return interceptor.RTPWriterFunc(func(h *rtp.Header, b []byte, a interceptor.Attributes) (int, error) {
+		l.file(ssrc, h.SequenceNumber)
+		return w.Write(h, b, a)
+	})
+}
+
+// ---- U4: a memo is as old as what it was computed from ----------------------------------------------------------------------------
+
+type GoodU4cover struct {
+	masks [4][]bool
+	n     int
+	memo  [4][]int
+}
+
+func (c *GoodU4cover) covered(i int) []int {
+	l := c.memo[i]
+	if l == nil {
+		l = make([]int, 0, c.n)
+		for k := 0; k < c.n; k++ {
+			if c.masks[i][k] {
+				l = append(l, k)
+			}
+		}
+		c.memo[i] = l
+	}
+	return l
+}
+
+func (c *GoodU4cover) update(n int) {
+	c.n = n
+	for i := range c.masks {
+		c.masks[i] = make([]bool, n)
+		c.memo[i] = nil
+	}
+}
+
+type BadU4cover struct {
+	masks [4][]bool
+	n     int
+	memo  [4][]int
+}
+
+func (c *BadU4cover) covered(i int) []int {
+	l := c.memo[i]
+	if l == nil {
+		l = make([]int, 0, c.n)
+		for k := 0; k < c.n; k++ {
+			if c.masks[i][k] {
+				l = append(l, k)
+			}
+		}
+		c.memo[i] = l
+	}
+	return l
+}
+
+func (c *BadU4cover) update(n int) {
+	c.n = n
+	for i := range c.masks {
+		c.masks[i] = make([]bool, n)
+	}
+}
+
+// ---- S8 (once per packet): message counters count packets, not their entries ------------------------------------------------------
+
+func recordGoodS8Count(st sStats, pkts []sPkt, ssrc uint32) sStats {
+	for _, pk := range pkts {
+		switch v := pk.(type) {
+		case *sNack:
+			hit := false
+			for _, m := range v.SSRCs() {
+				if m == ssrc {
+					hit = true
+				}
+			}
+			if hit {
+				st.NackCount++
+			}
+		}
+	}
+	return st
+}
+
+func recordBadS8Count(st sStats, pkts []sPkt, ssrc uint32) sStats {
+	for _, pk := range pkts {
+		switch v := pk.(type) {
+		case *sNack:
+			for _, m := range v.SSRCs() {
+				if m == ssrc {
+					st.NackCount++
+				}
+			}
+		}
+	}
+	return st
+}
+
+// ---- N4: what a map lookup returns for a missing key is nil ----------------------------------------------------------------------
+
+type n4stream struct {
+	mu  sync.Mutex
+	buf []byte
+}
+
+func (s *n4stream) drop() {
+	s.mu.Lock()
+	s.buf = nil
+	s.mu.Unlock()
+}
+
+type n4table struct {
+	streams map[uint32]*n4stream
+}
+
+func (t *n4table) GoodN4unbind(ssrc uint32) {
+	if s, ok := t.streams[ssrc]; ok {
+		s.drop()
+	}
+	delete(t.streams, ssrc)
+}
+
+func (t *n4table) BadN4unbind(ssrc uint32) {
+	s := t.streams[ssrc]
+	delete(t.streams, ssrc)
+	s.drop()
+}
+
+// ---- W2 (down-counting loops): the lower bound of a walk from the back cannot be negative -------------------------------------
+
+func GoodW2down(hist []uint64, limit int, want uint64) bool {
+	for i := min(limit, len(hist)) - 1; i >= 0; i-- {
+		if hist[i] == want {
+			return true
+		}
+	}
+	return false
+}
+
+func BadW2down(hist []uint64, limit int, want uint64) bool {
+	for i := len(hist) - 1; i >= len(hist)-limit; i-- {
+		if hist[i] == want {
+			return true
+		}
+	}
+	return false
+}
